@@ -31,9 +31,6 @@ pub struct RefLex
 	/// input touches behaviour the documentation does not settle; entries name
 	/// the class
 	pub unspecified: Vec<&'static str>,
-	/// byte offsets at which the lexemes begin that `unspecified` speaks of
-	/// (where the class is about one lexeme)
-	pub unspecified_starts: Vec<usize>,
 }
 
 pub const KEYWORDS: &[&str] = &[
@@ -381,7 +378,6 @@ pub fn lex(src: &[u8]) -> RefLex
 								// more than 128 binary digits whose value fits:
 								// "too big to parse" is not defined for this
 								out.unspecified.push("binary-leading-zeros");
-								out.unspecified_starts.push(i);
 							}
 						}
 					}
@@ -459,7 +455,6 @@ pub fn lex(src: &[u8]) -> RefLex
 				})
 				{
 					out.unspecified.push("long-unicode-escape");
-					out.unspecified_starts.push(i);
 				}
 				match r
 				{
